@@ -229,7 +229,8 @@ def run(ctx: Ctx):
         if pv is None or anode is None:
             return None
         for L in walk_no_nested(f.node):
-            if isinstance(L, ast.For) and norm(L.iter) in (pv, f"enumerate({pv})"):
+            if isinstance(L, ast.For) and (norm(L.iter) == pv or (isinstance(L.iter, ast.Call) and dotted(L.iter.func) == "enumerate" and L.iter.args and
+                                                                  norm(L.iter.args[0]) == pv)):
                 # must be the binding in force: the closest preceding assignment of pv is `anode`
                 names = [norm(x) for x in ast.walk(L.target) if isinstance(x, ast.Name)]
                 fut = names[-1]
